@@ -283,6 +283,8 @@ PREPARERS = {
     "str": ["strip", "upper"],
     "list": ["cast_list"],
     "float": ["abs", "floor"],
+    # Optional[int]: a preparer that maps None (a legal value) to something else - None is a value like any other for it
+    "opt": ["none_to_zero"],
     # a preparer that changes nothing still is a user callback that can fail (fault plans target it)
     "spec": ["noop"], "dict": ["noop"], "set": ["noop"], "keyedlist": ["noop"], "keyedset": ["noop"],
 }
@@ -465,7 +467,7 @@ def gen_world(src, profile):
                 continue
             for a in c["attrs"]:
                 T = a["type"]
-                if T[0] in PREPARERS and src.chance(1, 3 if T[0] == "spec" else 4) and a["name"] not in c.get("prepare", {}):
+                if T[0] in PREPARERS and (T[0] != "opt" or T[1] == ["int"]) and src.chance(1, 3 if T[0] in ("spec", "opt") else 4) and a["name"] not in c.get("prepare", {}):
                     c.setdefault("prepare", {})[a["name"]] = src.pick(PREPARERS[T[0]])
                 if is_collection(T) and elem_type(T)[0] in ITEM_PREPARERS and src.chance(1, 3):
                     c.setdefault("prepare_item", {})[a["name"]] = src.pick(ITEM_PREPARERS[elem_type(T)[0]])
@@ -907,6 +909,8 @@ def apply_preparer(how, v):
         return v
     if how == "bad_if_5":
         return "BAD" if v == 5 and not isinstance(v, bool) else v
+    if how == "none_to_zero":
+        return 0 if v is None else v
     raise AssertionError(how)
 
 
